@@ -34,6 +34,14 @@ func (h *Handler) HandleOpenDir(ctx *Context, path string) bool {
 
 	log.InfoContext(ctx, "Open dir")
 
+	// command closes the active directory (if any) whether the new one can be opened or not
+	if ctx.State.CwdHandle != nil {
+		if err := ctx.State.CwdHandle.Close(); err != nil {
+			log.WarnContext(ctx, "Close ctx.State.CwdHandle failed", logutil.ErrorAttr(err))
+		}
+		ctx.State.CwdHandle = nil
+	}
+
 	handle, err := h.Fs.Open(path)
 	if err != nil {
 		log.WarnContext(ctx, "Open failed", logutil.ErrorAttr(err))
@@ -47,13 +55,6 @@ func (h *Handler) HandleOpenDir(ctx *Context, path string) bool {
 			log.WarnContext(ctx, "Close failed", logutil.ErrorAttr(err))
 		}
 		return false
-	}
-
-	if ctx.State.CwdHandle != nil {
-		if err := ctx.State.CwdHandle.Close(); err != nil {
-			log.WarnContext(ctx, "Close ctx.State.CwdHandle failed", logutil.ErrorAttr(err))
-		}
-		ctx.State.CwdHandle = nil
 	}
 
 	// it's crucial to send "true" for directory and "false" for file
